@@ -77,7 +77,7 @@ COMPLEX_LEGAL = [["BASE", "EXTRA", "LEFTY"], ["BASE", "EXTRA", "RIGHTY"], ["LEN_
 
 
 class Schema:
-    def __init__(self, name, entities, abstract=(), derived_in=(), complex_legal=(), weights=None, inverses=None):
+    def __init__(self, name, entities, abstract=(), derived_in=(), complex_legal=(), weights=None, inverses=None, skip=()):
         self.name = name
         self.ENTITIES = entities
         self.ABSTRACT = set(abstract)
@@ -85,6 +85,7 @@ class Schema:
         self.COMPLEX_LEGAL = list(complex_legal)
         self.weights = weights or {}
         self.INVERSES = inverses or {}
+        self.SKIP = set(skip)          # entities the random populations leave out (used by fixed populations only)
 
     def all_attrs(self, ent):
         return all_attrs(ent, self.ENTITIES)
@@ -263,7 +264,7 @@ class Gen:
         # choose entity kinds; referenced kinds first in id order but emitted shuffled later (forward refs)
         kinds = []
         S = self.S
-        concrete = [e for e in S.ENTITIES if e not in S.ABSTRACT]
+        concrete = [e for e in S.ENTITIES if e not in S.ABSTRACT and e not in S.SKIP]
         for i in ids:
             x = r.random()
             acc = 0.0
@@ -404,9 +405,15 @@ VERIF_ALL.fallback = "POINT"
 
 # schemas/verif_inv.exp : several inverse attributes per entity, inherited inverses, inverses onto the same
 # entity through different attributes, aggregate and single-valued inverted attributes, a single-valued inverse
+PART_OR_DOC = ("select", [(None, ref("PART", "SPECIAL_PART", "VERY_SPECIAL_PART", "TAGGED_PART", "DOCUMENTATION"))])
 INV_ENTITIES = {
     "PART": ([], [("pname", STR, False, False)]),
     "SPECIAL_PART": (["PART"], [("grade", INT, False, False)]),
+    "VERY_SPECIAL_PART": (["SPECIAL_PART"], [("vs", INT, False, False)]),
+    "TAGGED": ([], [("tag", STR, False, False)]),
+    "TAGGED_PART": (["PART", "TAGGED"], [("extra", INT, False, False)]),
+    "TAG_USE": ([], [("target", ref("TAGGED", "TAGGED_PART"), False, False), ("uname", STR, False, False)]),
+    "LABEL": ([], [("ltarget", PART_OR_DOC, False, False), ("ltext", STR, False, False)]),
     "ASSEMBLY": ([], [("aname", STR, False, False), ("components", agg(ref("PART")), False, False),
                       ("main_part", ref("PART"), True, False), ("spare", ref("PART"), True, False)]),
     "SUB_ASSEMBLY": (["ASSEMBLY"], [("level", INT, False, False)]),
@@ -414,8 +421,13 @@ INV_ENTITIES = {
     "DOCUMENTATION": ([], [("about", ref("PART"), False, False), ("text", STR, False, False)]),
     "CERTIFICATE": ([], [("subject", ref("SPECIAL_PART"), False, False), ("other", ref("PART"), True, False)]),
 }
-VERIF_INV = Schema("VERIF_INV", INV_ENTITIES, weights={"PART": 0.25, "SPECIAL_PART": 0.15},
+# external mappings of the assembly family (referrers in external mapping)
+INV_COMPLEX_LEGAL = [["ASSEMBLY", "SUB_ASSEMBLY"], ["ASSEMBLY", "SUB_ASSEMBLY", "SUB_SUB_ASSEMBLY"]]
+VERIF_INV = Schema("VERIF_INV", INV_ENTITIES, complex_legal=INV_COMPLEX_LEGAL,
+                   weights={"PART": 0.2, "SPECIAL_PART": 0.1, "VERY_SPECIAL_PART": 0.08, "TAGGED_PART": 0.08, "COMPLEX": 0.06},
                    inverses={"PART": [("used_in", "ASSEMBLY", "components", True), ("main_of", "ASSEMBLY", "main_part", True),
-                                      ("doc", "DOCUMENTATION", "about", False)],
-                             "SPECIAL_PART": [("certified_by", "CERTIFICATE", "subject", True)]})
+                                      ("doc", "DOCUMENTATION", "about", False), ("labels", "LABEL", "ltarget", True)],
+                             "SPECIAL_PART": [("certified_by", "CERTIFICATE", "subject", True)],
+                             "TAGGED": [("tag_users", "TAG_USE", "target", True)]},
+                   skip=["LABEL"])       # a LABEL that refers to a part stops the loader (open finding select_typed_inverted_attribute)
 VERIF_INV.fallback = "PART"
